@@ -135,7 +135,7 @@ func safeErrText(err error) (s string) {
 var (
 	wdID      int64
 	wdStart   int64
-	wdTimeout = 6 * time.Second
+	wdTimeout = 4 * time.Second
 	wdHeap    = uint64(1) << 30
 )
 
@@ -203,9 +203,14 @@ var profSeen = map[[32]uintptr]int64{}
 func allocSite() string {
 	runtime.GC()
 	runtime.GC()
-	n, _ := runtime.MemProfile(nil, true)
-	recs := make([]runtime.MemProfileRecord, n+64)
-	n, ok := runtime.MemProfile(recs, true)
+	var recs []runtime.MemProfileRecord
+	n, ok := runtime.MemProfile(nil, true)
+	for tries := 0; tries < 5; tries++ {
+		recs = make([]runtime.MemProfileRecord, n+1024)
+		if n, ok = runtime.MemProfile(recs, true); ok {
+			break
+		}
+	}
 	if !ok {
 		return ""
 	}
